@@ -82,7 +82,7 @@ class IOWorld(Machine):
                        "unicode_label", "spelling_0", "spelling_1", "spelling_2", "spelling_3", "spelling_4", "spelling_5", "spelling_6", "spelling_7",
                        "clean_path_read_back_later", "path_reduce_restored", "pts_roundtrip", "empty_edge_set",
                        "pts_large_coordinates", "masked_image_export", "explicit_extension_kwarg", "empty_preexisting_file", "exact_zero_coordinates",
-                       "upper_case_extension")
+                       "upper_case_extension", "pickled_transform_was_applied_before")
 
     @classmethod
     def swarm(cls, rng, tier):
@@ -312,7 +312,16 @@ class IOWorld(Machine):
             src = gen.general_points(seed, 6, 2)
             tgt = gen.target_for("AlignmentAffine", seed ^ 3, src)
             kk = {"alignment": gen.ALIGN_KINDS[seed % 5], "tps": "ThinPlateSplines", "pwa": "PiecewiseAffine"}[k]
-            return gen.make_alignment(kk, PointCloud(src), PointCloud(tgt), {})
+            al = gen.make_alignment(kk, PointCloud(src), PointCloud(tgt), {})
+            if seed & 16:
+                # an object with a history: it was used before it is saved (whatever it remembers goes along)
+                try:
+                    al.apply(src[:4].mean(axis=0, keepdims=True) + 0.01 * g.rand(1, 2))
+                    al.apply(PointCloud(src.copy()))
+                    self.ctx.probe("pickled_transform_was_applied_before")
+                except Exception:
+                    pass
+            return al
         if k == "chain":
             return TransformChain([gen.homog_transform("Affine", seed, 2), gen.homog_transform("Rotation", seed ^ 1, 2)])
         if k == "pcavec":
